@@ -52,7 +52,7 @@ def apply_faults(U, letters, layout, faults):
     next_id = len(rows)
     for f in faults:
         k = f["kind"]
-        if not rows and k in ("drop_row", "dup_row", "relabel", "blank"):
+        if not rows and k in ("drop_row", "dup_row", "relabel", "blank", "relabel_known", "swap_labels"):
             continue
         i = f["pos"] % max(1, len(rows))
         if k == "drop_row":
@@ -224,6 +224,11 @@ def run_fault_case(desc, weak_only=False):
     if not records:
         raise Discard("empty frame")
     df = frames.render(U, letters, records, lay, **kw)
+    if desc.get("dup_index") and not any(n is not None for n in df.index.names) and len(df) >= 2:
+        # a table glued together from parts without ignore_index: the integer row labels repeat
+        k_ = max(1, len(df) // 2)
+        df.index = list(range(k_)) + list(range(len(df) - k_))
+    df_before = df.copy(deep=True)
     am, ae = desc["allow_missing"], desc["allow_extra"]
     verdict, detail = contract(U, letters, [(l, v) for l, v in records], structural, am, ae)
     if unasserted and am:
@@ -236,7 +241,9 @@ def run_fault_case(desc, weak_only=False):
             raise Discard("a completely empty row cannot be represented in a CSV/Excel file")
     with tempfile.TemporaryDirectory(prefix="verif_c12_") as tmp:
         res, err = call_import(desc, U, letters, df, tmp)
-    cl = fault_classes(desc) + [f"expect:{verdict}"]
+    if not (df.equals(df_before) and list(df.columns) == list(df_before.columns) and df.index.equals(df_before.index)):
+        raise Violation("import-modified-input-frame", f"columns {list(df_before.columns)} -> {list(df.columns)}")
+    cl = fault_classes(desc) + [f"expect:{verdict}"] + (["repeated-row-labels"] if desc.get("dup_index") else [])
     ctx = f"faults {[(f['kind'], f['pos']) for f in desc['faults']]} flags missing={am} extra={ae} entry={desc['entry']} layout wide={layout.get('wide')} index={layout.get('index')} dims {letters}"
     items = build.uitems(U)
     # weak clause of C11: whatever is returned, every non-zero entry comes from the unique row with those labels
@@ -314,6 +321,7 @@ def fault_cases(draw, max_faults=2):
         "allow_missing": draw(st.booleans()),
         "allow_extra": draw(st.booleans()),
         "entry": draw(st.sampled_from(["from_df", "from_df", "set_values_from_df", "set_values_from_df", "csv", "excel"])),
+        "dup_index": draw(st.sampled_from([False, False, True])),
     }
 
 
